@@ -391,25 +391,39 @@ func (obj *Real32) MarshalJSON() ([]byte, error) {
 func (obj *Real32) UnmarshalJSON(data []byte) error {
   r := struct{Value float32; Derivative []float32; Hessian [][]float32}{}
   if err := json.Unmarshal(data, &r); err == nil {
-    obj.Value = r.Value
-    if len(r.Derivative) != 0 && len(r.Hessian) != 0 {
-      if len(r.Derivative) != len(r.Derivative) {
+    n := len(r.Derivative)
+    if len(r.Hessian) != 0 {
+      if n == 0 {
+        n = len(r.Hessian)
+      }
+      if len(r.Hessian) != n {
         return fmt.Errorf("invalid json scalar representation")
       }
-      obj.Alloc(len(r.Derivative), 2)
-      obj.Derivative = r.Derivative
+      for i := 0; i < n; i++ {
+        if len(r.Hessian[i]) != n {
+          return fmt.Errorf("invalid json scalar representation")
+        }
+      }
+    }
+    obj.Value = r.Value
+    switch {
+    case len(r.Hessian) != 0:
+      obj.Alloc(n, 2)
+      obj.ResetDerivatives()
+      copy(obj.Derivative, r.Derivative)
       obj.Hessian = r.Hessian
-    } else
-    if len(r.Derivative) != 0 && len(r.Hessian) == 0 {
-      obj.Alloc(len(r.Derivative), 1)
+    case n != 0:
+      obj.Alloc(n, 1)
       obj.Derivative = r.Derivative
-    } else
-    if len(r.Derivative) == 0 && len(r.Hessian) != 0 {
-      obj.Alloc(len(r.Derivative), 2)
-      obj.Hessian = r.Hessian
+    default:
+      obj.Alloc(0, 0)
     }
     return nil
   } else {
-    return json.Unmarshal(data, &obj.Value)
+    if err := json.Unmarshal(data, &obj.Value); err != nil {
+      return err
+    }
+    obj.Alloc(0, 0)
+    return nil
   }
 }
